@@ -1626,11 +1626,14 @@ class Authenticated(BaseClientHandler):
                     f"[TRYCREATE] No such mailbox: '{cmd.mailbox_name}'"
                 ) from exc
 
-        return self._format_copyuid(
-            dest_mbox,
-            [u for u in src_uids if u is not None],
-            [u for u in dst_uids if u is not None],
-        )
+        # If no message was copied (the UID set named no existing message)
+        # there is nothing for a COPYUID response code to report.
+        #
+        src_uid_list = [u for u in src_uids if u is not None]
+        dst_uid_list = [u for u in dst_uids if u is not None]
+        if not src_uid_list:
+            return None
+        return self._format_copyuid(dest_mbox, src_uid_list, dst_uid_list)
 
     ##################################################################
     #
@@ -1696,6 +1699,8 @@ class Authenticated(BaseClientHandler):
         #
         src_uid_list = [u for u in src_uids if u is not None]
         dst_uid_list = [u for u in dst_uids if u is not None]
+        if not src_uid_list:
+            return None
         copyuid = self._format_copyuid(dest_mbox, src_uid_list, dst_uid_list)
         await self.client.push(f"* OK {copyuid}\r\n")
 
